@@ -195,6 +195,9 @@ def _seq_env():
 
         def start(self, x0):
             for kind, k in self.spec["requests"]:
+                if kind == "B":        # a batch of vectors (what a population-based / parallel method sends)
+                    self.cb(np.array([[0.25 * i] for i in k]), return_functions=True, return_gradients=False)
+                    continue
                 self.spec["evaluator"].current = k
                 self.cb(np.array([0.25 * k]), return_functions="F" in kind, return_gradients="G" in kind)
 
@@ -232,17 +235,13 @@ class TableEvaluator:
         import numpy as np
         from ropt.evaluator import EvaluatorResult
         self.calls += 1
-        k = self.current
-        pt = self.case["points"][k]
-        x0 = 0.25 * k
         reals = np.asarray(ctx.realizations)
         perts = None if ctx.perturbations is None else np.asarray(ctx.perturbations)
-        O, OS = _np(pt["objs"]), _np(pt["oslope"])
-        has_c = pt.get("cons") is not None
-        C, CS = (_np(pt["cons"]), _np(pt["cslope"])) if has_c else (None, None)
+        pt0 = self.case["points"][0]
+        has_c = pt0.get("cons") is not None
         n = variables.shape[0]
-        no = O.shape[1]
-        nc = C.shape[1] if has_c else 0
+        no = len(pt0["objs"][0])
+        nc = len(pt0["cons"][0]) if has_c else 0
         obj = np.zeros((n, no))
         con = np.zeros((n, nc)) if has_c else None
         ao = getattr(ctx, "active_objectives", None) if self.case.get("lazy") else None
@@ -250,6 +249,13 @@ class TableEvaluator:
         for row in range(n):
             r = int(reals[row])
             p = -1 if perts is None else int(perts[row])
+            # unperturbed rows name their point themselves (a batch holds several points), perturbed rows belong to
+            # the point of the current request
+            k = self.current if p >= 0 else int(round(float(variables[row, 0]) * 4))
+            pt = self.case["points"][k]
+            x0 = 0.25 * k
+            O, OS = _np(pt["objs"]), _np(pt["oslope"])
+            C, CS = (_np(pt["cons"]), _np(pt["cslope"])) if has_c else (None, None)
             dx = float(variables[row, 0]) - x0
             obj[row] = O[r] + OS[r] * dx
             if has_c:
@@ -357,10 +363,13 @@ def run_seq(case):
                 return obs
             answers = []
             for kind, k in case["requests"]:
-                ev.current = k
-                x = np.array([0.25 * k])
+                if kind == "B":
+                    x = np.array([[0.25 * i] for i in k])
+                else:
+                    ev.current = k
+                    x = np.array([0.25 * k])
                 try:
-                    res = ee.calculate(x, compute_functions="F" in kind, compute_gradients="G" in kind)
+                    res = ee.calculate(x, compute_functions=kind in ("F", "FG", "B"), compute_gradients="G" in kind)
                     answers.append(["ok", [_res_obs(r) for r in res]])
                     if case.get("scribble"):
                         _scribble(res)
@@ -393,10 +402,13 @@ def run_seq(case):
                 st = plan.add_step("optimizer")
                 code = plan.run_step(st, config=config)
             else:
-                k = case["requests"][0][1]
-                ev.current = k
+                kind, k = case["requests"][0]
                 st = plan.add_step("evaluator")
-                code = plan.run_step(st, config=config, variables=[0.25 * k])
+                if kind == "B":
+                    code = plan.run_step(st, config=config, variables=[[0.25 * i] for i in k])
+                else:
+                    ev.current = k
+                    code = plan.run_step(st, config=config, variables=[0.25 * k])
             obs["exit"] = ["ok", int(code.value)]
         except OptimizationAborted as e:
             obs["exit"] = ["raise", "OptimizationAborted"]
@@ -578,7 +590,7 @@ def seq_term(case, obs):
            f"{zopt(case.get('cfm') if case.get('lower') else None)} {cq.nat(obs['rmin_n'])} {cq.nat(obs['pmin_n'])} "
            f"{cq.lst(_point_term(pt) for pt in case['points'])})")
     via = {"calculate": "ViaCalculate", "evalstep": "ViaEvalStep"}.get(case["via"]) or f"(ViaStep {cq.b(case.get('allow_nan', False))})"
-    reqs = cq.lst(f"({REQ_CTOR[k]} {cq.nat(i)})" for k, i in case["requests"])
+    reqs = cq.lst((f"(ReqB {cq.nats(i)})" if k == "B" else f"({REQ_CTOR[k]} {cq.nat(i)})") for k, i in case["requests"])
     res_list = lambda rs: cq.lst(_result_term(r) for r in rs)
     if case["via"] == "calculate":
         a = obs["answers"]
@@ -930,8 +942,8 @@ def oracle_gradient(case, obs, pt, g):
 
 
 def _oracle_results(case, obs, k, rs):
-    pt = case["points"][k]
-    for r in rs:
+    for i, r in enumerate(rs):
+        pt = case["points"][k[i] if isinstance(k, list) else k]
         if r["t"] == "F":
             c, o = _as_e2e(case, obs, pt, ["ok", r])
             v = oracle_e2e(c, o)
@@ -942,8 +954,21 @@ def _oracle_results(case, obs, k, rs):
     return None
 
 
-def _shape_ok(kind, rs):
+def _abort_justified(case, obs, k):
+    """an aborted request: some filter in use may find no positive weight at (one of) the point(s) of the request"""
+    v = None
+    for i in (k if isinstance(k, list) else [k]):
+        c, o = _as_e2e(case, obs, case["points"][i], ["abort", 1])
+        v = oracle_e2e(c, o)
+        if v is None:
+            return None
+    return v
+
+
+def _shape_ok(kind, rs, k=None):
     t = [r["t"] for r in rs]
+    if kind == "B":
+        return t == ["F"] * len(k)
     return t == ["F"] if kind == "F" else t == ["F", "G"] if kind == "FG" else t in (["G"], ["F", "G"])
 
 
@@ -966,16 +991,16 @@ def oracle_seq(case, obs):
         if len(a[1]) != len(case["requests"]):
             return {"clause": "answers", "detail": len(a[1])}
         for (kind, k), ans in zip(case["requests"], a[1]):
-            pt = case["points"][k]
             if ans[0] == "raise":
                 return {"clause": "exception-instead-of-result-or-TOO_FEW_REALIZATIONS", "detail": [kind, k, ans[1]]}
             if ans[0] == "abort":
-                c, o = _as_e2e(case, obs, pt, ans)
-                v = oracle_e2e(c, o)
+                if ans[1] != 1:
+                    return {"clause": "wrong-exit-code", "detail": ans[1]}
+                v = _abort_justified(case, obs, k)
                 if v is not None:
                     return {"clause": v["clause"], "detail": {"request": [kind, k], "inner": v["detail"]}}
                 continue
-            if not _shape_ok(kind, ans[1]):
+            if not _shape_ok(kind, ans[1], k):
                 return {"clause": "results-shape", "detail": [kind, [r["t"] for r in ans[1]]]}
             v = _oracle_results(case, obs, k, ans[1])
             if v is not None:
@@ -991,7 +1016,7 @@ def oracle_seq(case, obs):
     if len(delivered) > len(case["requests"]):
         return {"clause": "more-evaluations-than-requests", "detail": len(delivered)}
     for i, ((kind, k), rs) in enumerate(zip(case["requests"], delivered)):
-        if not _shape_ok(kind, rs):
+        if not _shape_ok(kind, rs, k):
             return {"clause": "results-shape", "detail": [kind, [r["t"] for r in rs]]}
         v = _oracle_results(case, obs, k, rs)
         if v is not None:
@@ -1012,8 +1037,7 @@ def oracle_seq(case, obs):
     kind, k = case["requests"][len(delivered)]
     if code != 1:
         return {"clause": "exit-code", "detail": {"exit": code, "expected": 1, "request": [kind, k]}}
-    c, o = _as_e2e(case, obs, case["points"][k], ["abort", 1])
-    v = oracle_e2e(c, o)
+    v = _abort_justified(case, obs, k)
     if v is not None:
         return {"clause": v["clause"], "detail": {"request": [kind, k], "inner": v["detail"]}}
     return None
@@ -1254,7 +1278,13 @@ def gen_maps(rng, nf, no, nc, mode):
 
 REQUEST_PATTERNS = [["F0", "G0"], ["F0", "G0", "G0"], ["FG0"], ["G0"], ["F0", "G1"], ["F0", "F1", "G1"], ["F0", "F1", "G0"],
                     ["F0", "G0", "F1", "G1"], ["FG0", "G0"], ["F0", "FG0", "G0"], ["F0", "G0", "F0", "G0"], ["G0", "G0"],
-                    ["F0", "F1", "F2"], ["F1", "G1", "G0", "F0", "G0"], ["F0", "G1", "G0"], ["F0"], ["F0", "G0", "G1", "G1"]]
+                    ["F0", "F1", "F2"], ["F1", "G1", "G0", "F0", "G0"], ["F0", "G1", "G0"], ["F0"], ["F0", "G0", "G1", "G1"],
+                    ["B01"], ["B012"], ["B10", "G1"], ["B01", "G0", "G1"], ["F0", "B10", "G0"], ["B00", "F1"], ["B0"]]
+EVALSTEP_PATTERNS = [["F0"], ["F0"], ["B01"], ["B012"]]
+
+
+def _parse_request(x):
+    return ["B", [int(c) for c in x[1:]]] if x[0] == "B" else [x[:-1], int(x[-1])]
 
 
 def gen_seq(rng, kinds, max_R=6):
@@ -1269,8 +1299,8 @@ def gen_seq(rng, kinds, max_R=6):
     ofm, cfm = gen_maps(rng, len(filters), no, nc, mmode)
     lo, up = gen_bounds(rng, nc)
     via = rng.choice(["calculate"] * 6 + ["step"] * 3 + ["evalstep"])
-    pat = rng.choice(REQUEST_PATTERNS) if via != "evalstep" else ["F0"]
-    npts = 1 + max(int(x[-1]) for x in pat)
+    pat = rng.choice(REQUEST_PATTERNS) if via != "evalstep" else rng.choice(EVALSTEP_PATTERNS)
+    npts = 1 + max(int(c) for x in pat for c in x if c.isdigit())
     ties = rng.random() < 0.06
     fail_rate = rng.choice([0, 0, 0.15, 0.3, 0.5, 1.0]) if rng.random() < 0.97 else 1.0
     points = [gen_point(rng, R, no, nc, P, fail_rate if rng.random() < 0.8 else 0.0, rng.choice([0, 0, 0.15, 0.4]), ties)
@@ -1282,7 +1312,7 @@ def gen_seq(rng, kinds, max_R=6):
             "lower": lo, "upper": up, "filters": filters, "ofm": ofm, "cfm": cfm,
             "rmin": rng.choice([0, 1, 1, 1, 2, R]), "pmin": rng.randint(1, P), "P": P,
             "lazy": rng.random() < 0.5, "scribble": rng.random() < 0.5, "allow_nan": rng.random() < 0.3,
-            "points": points, "requests": [[x[:-1], int(x[-1])] for x in pat],
+            "points": points, "requests": [_parse_request(x) for x in pat],
             "_mode": fmode + "/" + mmode}
 
 
@@ -1416,7 +1446,7 @@ def nontrivial(case, obs):
 
 def seq_features(case, obs):
     f = {"kind": "seq/" + case["via"], "seq_filters": case.get("_mode", "?").split("/")[0],
-         "seq_maps": case.get("_mode", "?/?").split("/")[-1], "seq_requests": "".join(k for k, _ in case["requests"])[:8],
+         "seq_maps": case.get("_mode", "?/?").split("/")[-1], "seq_requests": "".join(k for k, _ in case["requests"])[:8], "seq_batch": any(k == "B" for k, _ in case["requests"]),
          "seq_same_method": len({m["name"] for m in case["filters"]}) < len(case["filters"])}
     if case["via"] == "calculate":
         a = obs["answers"]
